@@ -229,7 +229,8 @@ func isNamed(T types.Type, pkgPath, name string) bool {
 }
 
 func isKeeperType(T types.Type) bool {
-	return isNamed(T, modPath+"/x/cctp/keeper", "Keeper") || isNamed(T, modPath+"/x/cctp/keeper", "msgServer")
+	return isNamed(T, modPath+"/x/cctp/keeper", "Keeper") || isNamed(T, modPath+"/x/cctp/keeper", "msgServer") ||
+		isNamed(T, controlPkgPath, "Keeper") // positive-control fixture
 }
 
 func isCtxType(T types.Type) bool {
@@ -531,6 +532,9 @@ func (x *TX) load(addr ssa.Value, at ssa.Instruction) *Term {
 		}
 		return mk("index", "", x.Of(a.X, at), idx)
 	case *ssa.Global:
+		if z := x.p.zeroBufGlobal(a); z != nil {
+			return z
+		}
 		return x.globalTerm(a)
 	case *ssa.FreeVar:
 		if pt, ok := a.Type().(*types.Pointer); ok {
@@ -1410,4 +1414,86 @@ func (x *TX) spliceVarargs(sig *types.Signature, args []*Term, off int) []*Term 
 		return args[:len(args)-1]
 	}
 	return args
+}
+
+var zeroBufCache = map[*ssa.Global]*Term{}
+var zeroBufDone = map[*ssa.Global]bool{}
+
+// zeroBufGlobal: a package-level []byte of module code that is initialised once
+// (in the package initialiser) to an all-zero buffer and is never written or
+// aliased for writing anywhere in module code is the constant buf(N){}. Returns
+// nil for every other global.
+func (p *Prog) zeroBufGlobal(g *ssa.Global) *Term {
+	if zeroBufDone[g] {
+		return zeroBufCache[g]
+	}
+	zeroBufDone[g] = true
+	if g.Pkg == nil || !p.isModulePkgPath(g.Pkg.Pkg.Path()) {
+		return nil
+	}
+	sl, ok := g.Type().(*types.Pointer).Elem().Underlying().(*types.Slice)
+	if !ok {
+		return nil
+	}
+	if b, ok := sl.Elem().Underlying().(*types.Basic); !ok || b.Kind() != types.Uint8 {
+		return nil
+	}
+	name := shortPkg(g.Pkg.Pkg.Path()) + "." + g.Name()
+	init := p.globalInit(name)
+	if init == nil || init.Op != "buf" {
+		return nil
+	}
+	for _, a := range init.A {
+		if a.String() != "0" {
+			return nil
+		}
+	}
+	// never written outside the package initialiser, never aliased for writing
+	for _, fn := range p.Funcs {
+		synthInit := fn.Synthetic != "" && fn.Name() == "init"
+		x := p.tx(fn)
+		for _, b := range fn.Blocks {
+			for _, in := range b.Instrs {
+				switch in := in.(type) {
+				case *ssa.Store:
+					if in.Addr == ssa.Value(g) && !synthInit {
+						return nil
+					}
+				case *ssa.UnOp:
+					if in.Op == token.MUL && in.X == ssa.Value(g) {
+						if why := globalUseWrites(x, in, 0); why != "" {
+							return nil
+						}
+						if refs := in.Referrers(); refs != nil {
+							for _, r := range *refs {
+								if ia, ok := r.(*ssa.IndexAddr); ok {
+									if irefs := ia.Referrers(); irefs != nil {
+										for _, ir := range *irefs {
+											if st, ok := ir.(*ssa.Store); ok && st.Addr == ssa.Value(ia) {
+												return nil
+											}
+										}
+									}
+								}
+								if sl, ok := r.(*ssa.Slice); ok {
+									if srefs := sl.Referrers(); srefs != nil {
+										for _, sr := range *srefs {
+											if c, ok := sr.(*ssa.Call); ok {
+												if bi, ok := c.Call.Value.(*ssa.Builtin); ok && bi.Name() == "copy" && c.Call.Args[0] == ssa.Value(sl) {
+													return nil
+												}
+											}
+										}
+									}
+								}
+							}
+						}
+					}
+				}
+			}
+		}
+	}
+	z := &Term{Op: "buf", S: init.S, T: g.Type().(*types.Pointer).Elem()}
+	zeroBufCache[g] = z
+	return z
 }
